@@ -242,7 +242,9 @@ def node_classes_covered():
 IMMUT_SHAPES = ['date >= "2024-01-05" and month == 9001', '"2024-03-10" < date <= "2024-09-20"', 'txn.date == "2024-02-03"',
                 'any(r.when == "2024-02-03" for r in orders)', 'contains("@P1") and amount > 9001', '(m := [r for r in orders if r.amount > 9001]) and m[0].item == "@P1"',
                 'regex_replace(description, "a", "@P1") == "x"', 'sum(r.amount for r in orders) > 9001', 'field.k == "@P1"', 'next((r for r in orders), 0) == 0',
-                'any(r.missing == "@P1" for r in orders) or amount > 9001', 'orders[0].nope == 9001 or orders[1].__class__ == 1', 'exists(orders[0].ghost) or contains("@P1")']
+                'any(r.missing == "@P1" for r in orders) or amount > 9001', 'orders[0].nope == 9001 or orders[1].__class__ == 1', 'exists(orders[0].ghost) or contains("@P1")',
+                'len(sum(([q for q in orders if q.amount == r.amount] for r in orders), orders)) >= 9001', 'len(sum(([q for q in orders] for r in orders if r.amount > 9001), orders)) == 2 or contains("@P1")',
+                'sum((r.amount for r in orders), 9001) > 0 and len(orders) == 2']
 
 
 def immutability(i):
